@@ -59,6 +59,10 @@ struct Shape {
   unsigned bits;
 };
 
+// heap-fill differential: the two runs of a case build their tables / modules from heap memory with different initial contents
+// (what malloc hands out is whatever earlier frees left there): a result may not depend on heap bytes the library never wrote
+static const int HEAP_FILLS[4] = {0x00, 0xFF, 0x7F, 0xA5};
+
 static void fill64(int64_t* p, size_t cnt, unsigned bits, Rng& r) {
   for (size_t i = 0; i < cnt; ++i) p[i] = r.sbits(bits);
 }
@@ -416,23 +420,35 @@ std::vector<Sub> vh_subs() {
       int pf2 = (int)v[14];
       if (pf2 == v[13]) pf2 = (pf2 + 1) & 3;
       MODULE* mod = spq::modules().get(sh.n, sh.mt, sh.mask);
+      // one case in two (N <= 2048) gives each run its own freshly created module, built from heap memory with different contents
+      const bool fresh = sh.k <= 11 && ((v[15] >> 9) & 1);
+      auto with_module = [&](int pf, Run& R) {
+        if (!fresh) return exec_entry(e, sh, mod, R);
+        at::set_fill(HEAP_FILLS[pf & 3]);
+        MODULE* fm;
+        { spq::MaskGuard g(sh.mask); fm = new_module_info(sh.n, sh.mt); }
+        exec_entry(e, sh, fm, R);
+        { spq::MaskGuard g(sh.mask); delete_module_info(fm); }
+        at::set_fill(-1);
+      };
       ctx.notef("%s N=%llu %s cfg=%s s1=%llu s2=%llu %llux%llu pad=%llu k=%llu range=(%llu,step %llu) prefills %d/%d", ENAMES[e], (unsigned long long)sh.n,
                 sh.mt == FFT64 ? "FFT64" : "NTT120", sh.mask ? "generic" : "full", (unsigned long long)sh.s1, (unsigned long long)sh.s2, (unsigned long long)sh.nrows,
                 (unsigned long long)sh.ncols, (unsigned long long)sh.pad, (unsigned long long)sh.kk, (unsigned long long)sh.begin, (unsigned long long)sh.step, (int)v[13], pf2);
       Run r1((uint64_t)v[15] * 3 + 1, (uint64_t)v[15], (int)v[13]);
-      exec_entry(e, sh, mod, r1);
+      with_module((int)v[13], r1);
       if (!r1.inputs_intact()) return ctx.failf("%s: a source operand was modified", ENAMES[e]);
       if (r1.ar.check_canaries() >= 0) return ctx.failf("%s N=%llu: write outside a declared extent / beyond *_tmp_bytes", ENAMES[e], (unsigned long long)sh.n);
       Run r2((uint64_t)v[15] * 7 + 5, (uint64_t)v[15], pf2);
-      exec_entry(e, sh, mod, r2);
+      with_module(pf2, r2);
       if (r2.ar.check_canaries() >= 0) return ctx.failf("%s N=%llu: write outside a declared extent / beyond *_tmp_bytes (2nd run)", ENAMES[e], (unsigned long long)sh.n);
       if (r1.outs != r2.outs) {
         size_t w = 0, off = 0;
         for (; w < r1.outs.size(); ++w) if (r1.outs[w] != r2.outs[w]) { for (off = 0; off < r1.outs[w].size() && r1.outs[w][off] == r2.outs[w][off]; ++off) {} break; }
-        return ctx.failf("%s N=%llu %s s1=%llu s2=%llu %llux%llu: result depends on the previous contents of output/scratch or on buffer placement (output %zu byte %zu differs between two runs on identical inputs)",
+        return ctx.failf("%s N=%llu %s s1=%llu s2=%llu %llux%llu: result depends on the previous contents of output/scratch, on buffer placement%s (output %zu byte %zu differs between two runs on identical inputs)",
                          ENAMES[e], (unsigned long long)sh.n, sh.mt == FFT64 ? "FFT64" : "NTT120", (unsigned long long)sh.s1, (unsigned long long)sh.s2,
-                         (unsigned long long)sh.nrows, (unsigned long long)sh.ncols, w, off);
+                         (unsigned long long)sh.nrows, (unsigned long long)sh.ncols, fresh ? " or on the initial contents of the heap memory the module was built from" : "", w, off);
       }
+      if (fresh) ctx.cls("fresh-module,heap-fill-differential");
       const bool small = sh.s1 <= 1 || sh.s2 <= 1;
       ctx.nontrivial = small || r1.any_offset || r2.any_offset || sh.pad;
       ctx.cls(std::string("entry:") + ENAMES[e]);
@@ -459,13 +475,17 @@ std::vector<Sub> vh_subs() {
       if (pf2 == v[5]) pf2 = (pf2 + 1) & 3;
       ctx.notef("%s m=%llu cfg=%s ell=%lld avx=%lld", KNAMES[kf], (unsigned long long)m, mask ? "generic" : "full", (long long)v[3], (long long)v[4]);
       Run r1((uint64_t)v[7] * 3 + 1, (uint64_t)v[7], (int)v[5]);
+      at::set_fill(HEAP_FILLS[v[5] & 3]);  // the tables of run 1 and run 2 are built from differently filled heap memory
       exec_kernel(kf, m, mask, (uint64_t)v[3], (int)v[4], r1);
+      at::set_fill(-1);
       if (!r1.inputs_intact()) return ctx.failf("%s m=%llu: a source operand was modified", KNAMES[kf], (unsigned long long)m);
       if (r1.ar.check_canaries() >= 0) return ctx.failf("%s m=%llu: write outside a declared extent", KNAMES[kf], (unsigned long long)m);
       Run r2((uint64_t)v[7] * 7 + 5, (uint64_t)v[7], pf2);
+      at::set_fill(HEAP_FILLS[pf2 & 3]);
       exec_kernel(kf, m, mask, (uint64_t)v[3], (int)v[4], r2);
+      at::set_fill(-1);
       if (r2.ar.check_canaries() >= 0) return ctx.failf("%s m=%llu: write outside a declared extent (2nd run)", KNAMES[kf], (unsigned long long)m);
-      if (r1.outs != r2.outs) return ctx.failf("%s m=%llu: result depends on previous output contents or on buffer placement/alignment", KNAMES[kf], (unsigned long long)m);
+      if (r1.outs != r2.outs) return ctx.failf("%s m=%llu: result depends on previous output contents, on buffer placement/alignment or on the initial contents of the heap memory its table was built from", KNAMES[kf], (unsigned long long)m);
       ctx.nontrivial = true;
       ctx.cls(std::string("kernel:") + KNAMES[kf]);
       if (r1.any_offset || r2.any_offset) ctx.cls(std::string("offset:") + KNAMES[kf]);
